@@ -305,3 +305,29 @@ pub fn run() {
   run.assume("results of arithmetic are pushed through the same checks by the C02 engine");
   run.finish();
 }
+
+/// replay of one recorded number
+pub fn replay_case(case: &serde_json::Value) -> String {
+  let sci = case.get("sci").and_then(|x| x.as_str()).or_else(|| case.get("origin").and_then(|x| x.as_str())).unwrap_or("");
+  // origin of an arithmetic result: `<level> <op> <a> <b>`; only numbers given in scientific form are replayed here
+  let text = sci.split(' ').last().unwrap_or(sci);
+  let n = match text.parse::<FeelNumber>() {
+    Ok(n) => n,
+    Err(_) => return format!("FAIL the finite decimal128 value {} is rejected by FeelNumber::from_str", text),
+  };
+  let upper = text.to_ascii_uppercase();
+  let expected = upper.find('E').and_then(|p| {
+    let (m, e) = (&upper[..p], upper[p + 1..].parse::<i32>().ok()?);
+    let neg = m.starts_with('-');
+    let coef = m.trim_start_matches('-').trim_start_matches('+');
+    if coef.contains('.') {
+      None
+    } else {
+      Some(canon_sci(neg, coef, e))
+    }
+  });
+  match check_number(&n, expected.as_ref(), text) {
+    None => format!("PASS {} prints as {}", text, short(&n.to_string())),
+    Some((k, w)) => format!("FAIL {}: {}", k, w),
+  }
+}
